@@ -112,4 +112,34 @@ theorem self_including_file_is_left_alone :
     AtFileM.sccExpand AtFileM.fsEx 3 [[64, 108]] = [[45, 68, 76], [45, 68, 76], [64, 108]] := by
   simp [AtFileM.sccExpand, AtFileM.stripAt, AtFileM.fsEx, AtFileM.validUtf8, AtFileM.needsQuoting, AtFileM.splitWs, AtFileM.splitWsFuel, AtFileM.isSpace]
 
+/-- the options that make gcc / clang write further files next to the object (spellings as byte strings; `-aux-info` takes its
+    file name as the next word) -/
+def sideOutputOptions : List (List ArgsM.Bytes) :=
+  [[[45, 102, 115, 116, 97, 99, 107, 45, 117, 115, 97, 103, 101]],                                             -- -fstack-usage
+   [[45, 102, 100, 117, 109, 112, 45, 116, 114, 101, 101, 45, 111, 112, 116, 105, 109, 105, 122, 101, 100]],   -- -fdump-tree-optimized
+   [[45, 102, 100, 117, 109, 112, 45, 114, 116, 108, 45, 101, 120, 112, 97, 110, 100]],                        -- -fdump-rtl-expand
+   [[45, 102, 99, 97, 108, 108, 103, 114, 97, 112, 104, 45, 105, 110, 102, 111]],                              -- -fcallgraph-info
+   [[45, 102, 99, 97, 108, 108, 103, 114, 97, 112, 104, 45, 105, 110, 102, 111, 61, 115, 117]],                -- -fcallgraph-info=su
+   [[45, 115, 97, 118, 101, 45, 116, 101, 109, 112, 115, 61, 111, 98, 106]],                                   -- -save-temps=obj
+   [[45, 45, 115, 97, 118, 101, 45, 116, 101, 109, 112, 115, 61, 99, 119, 100]],                               -- --save-temps=cwd
+   [[45, 102, 115, 97, 118, 101, 45, 111, 112, 116, 105, 109, 105, 122, 97, 116, 105, 111, 110, 45, 114, 101, 99, 111, 114, 100]],   -- -fsave-optimization-record
+   [[45, 102, 115, 97, 118, 101, 45, 111, 112, 116, 105, 109, 105, 122, 97, 116, 105, 111, 110, 45, 114, 101, 99, 111, 114, 100, 61, 106, 115, 111, 110]],
+   [[45, 97, 117, 120, 45, 105, 110, 102, 111], [112, 46, 116, 120, 116]]]                                      -- -aux-info p.txt
+
+def isRefused : PRes → Bool
+  | .cannotCache _ => true
+  | _ => false
+
+/-- `side_output_options_refused` (fix F-C01-j, over the **regenerated** tables): `cc -c x.c <option>` is never cacheable, for gcc and
+    for clang, for every option of the list — and `-ftime-trace[=file]` for clang.  (A cached result holds the object only; these
+    options make the compiler write `.su`, dump, `.ci`, `.i`/`.s`, optimisation-record, prototype and trace files.) -/
+theorem side_output_options_refused :
+    sideOutputOptions.all (fun o =>
+      isRefused (parseArgs (search1 gccArgs) false false false ([[45, 99], [120, 46, 99]] ++ o)) &&
+      isRefused (parseArgs (search2 gccArgs clangArgs) true false false ([[45, 99], [120, 46, 99]] ++ o) (search2 gccArgs clangArgs))) = true ∧
+    isRefused (parseArgs (search2 gccArgs clangArgs) true false false [[45, 99], [120, 46, 99], [45, 102, 116, 105, 109, 101, 45, 116, 114, 97, 99, 101]] (search2 gccArgs clangArgs)) = true ∧
+    isRefused (parseArgs (search2 gccArgs clangArgs) true false false [[45, 99], [120, 46, 99], [45, 102, 116, 105, 109, 101, 45, 116, 114, 97, 99, 101, 61, 116, 46, 106, 115, 111, 110]] (search2 gccArgs clangArgs)) = true ∧
+    -- non-vacuity: the same command line without such an option is accepted
+    isRefused (parseArgs (search1 gccArgs) false false false [[45, 99], [120, 46, 99]]) = false := by decide +kernel
+
 end C01
